@@ -478,3 +478,18 @@ Proof.
   intros Hs Ho. rewrite scan_short_step by exact Hs. split; [|destruct e; reflexivity].
   destruct Ho as [Hc|Hk]; [rewrite Hc; reflexivity|]. rewrite Hk. destruct (lfn_complete pend); reflexivity.
 Qed.
+
+(** * volume labels (C07): an entry with the VOLUME_ID bit set — whatever other attribute bits it carries — is never listed and never found *)
+Theorem labels_ignored es e : is_volid e = true ->
+  ~ In e (ge_dirs es ++ ge_files es) /\ forall n, search_entry es n <> Some e.
+Proof.
+  intros Hv. assert (Hn : ~ In e (ge_dirs es ++ ge_files es)).
+  { intros Hin. apply in_app_or in Hin. unfold ge_dirs, ge_files in Hin. destruct Hin as [Hin|Hin]; apply filter_In in Hin; destruct Hin as [_ Hf];
+      rewrite Hv, orb_true_r in Hf; discriminate. }
+  split; [exact Hn|]. intros n H. apply Hn. unfold search_entry in H.
+  destruct (find (name_matches n) (ge_dirs es ++ ge_files es)) as [x|] eqn:E1.
+  - inversion H; subst. apply find_some in E1. apply E1.
+  - destruct (find (name_matches_upper n) (ge_dirs es ++ ge_files es)) as [x|] eqn:E2; [|discriminate]. inversion H; subst. apply find_some in E2. apply E2.
+Qed.
+Example label_with_archive_bit_is_a_label : is_volid (mkDirent (repeat 65 11) 40 0 0 0 0 0 0 0 0 0 0 None) = true.
+Proof. reflexivity. Qed.
